@@ -586,7 +586,7 @@ func jobs05(tier string) []job05 {
 	// other payloads and masks
 	reps := 1
 	if tier == "thorough" {
-		reps = 6
+		reps = 10
 	}
 	for rep := 0; rep < reps; rep++ {
 		for v := 40; v >= 1; v-- {
@@ -603,7 +603,7 @@ func jobs05(tier string) []job05 {
 	}
 	ns := 3000
 	if tier == "thorough" {
-		ns = 80000
+		ns = 150000
 	}
 	for i := 0; i < ns; i++ {
 		j = append(j, job05{kind: "seeded"})
@@ -729,7 +729,7 @@ func C05() *kit.Spec {
 		Engine:   "chansim",
 		Level:    "fault_enumeration",
 		Rule: "one evaluation = one damaged symbol decoded by the real decoder. Sender: the library's own encoder (primary) or the harness's reference sender; medium: module matrix with faults placed through the harness's independent layout model; budget: <= floor(ec/2) codewords per RS block (arbitrary non-zero 8-bit deltas), <= 3 flips in each format copy, <= 3 in each version copy. " +
-			"Enumerated: a single-codeword fault at every codeword of every block of one symbol per (QR version, level) [all 160 pairs; thorough: six payload/mask choices each] and of all 30 Data Matrix sizes. Seeded: multi-fault plans incl. every block at exactly t with 3 flips in all four info copies. distinct_nontrivial = distinct seeded (symbol, plan) hashes with at least one fault",
+			"Enumerated: a single-codeword fault at every codeword of every block of one symbol per (QR version, level) [all 160 pairs; thorough: ten payload/mask choices each] and of all 30 Data Matrix sizes. Seeded: multi-fault plans incl. every block at exactly t with 3 flips in all four info copies. distinct_nontrivial = distinct seeded (symbol, plan) hashes with at least one fault",
 		StateMetric: "distinct (symbol shape, sender, payload, fault plan) hashes; per-sweep counters",
 		Assumptions: []string{
 			"faults are placed by the harness's own QR/Data Matrix layout models; every library-made symbol is first read through that layout and must show zero reference syndromes (otherwise the symbol is skipped and counted, never reported)",
